@@ -6,6 +6,7 @@
     pegrows                                       -> global flags + opcode numbers whose verifier row does not cover peg_rule
     pegverify <num_constants> <words...>          -> "acc" | "rej"   (model of the verifier in peg_unmarshal)
     verify <sc> <arity> <vararg> <nc> <nd> <ne> <hex of u32 LE words> -> error code of the janet_verify model (0 = accepted)
+    vmguards                                      -> "ok" | "bad <handler:expr>..." (value-dependent dereferences of vm.c without a dominating run-time test)
     umsites                                       -> "ok" | "bad <site>..."       (read sites of marsh.c whose test does not dominate the reads)
     um [<hex>]                                    -> "acc <consumed> <type>" | "rej <class>" | "oob <site>" | "fuel"
                                                      (byte-level unmarshal model with the sites of the current source)
@@ -18,6 +19,7 @@ import JanetModel.Gen.ImageChecks
 import JanetModel.PegVerify.Defs
 import JanetModel.Gen.PegAccess
 import JanetModel.Unmarsh.BytesCfg
+import JanetModel.Bytecode.GuardObligations
 open Driver JanetModel.Bytecode JanetModel.Gen.VmAccess JanetModel.Unmarsh
 
 def allChecks : Checks :=
@@ -57,6 +59,9 @@ def step (_ : Unit) (toks : List String) : Unit × String :=
   | ["umsites"] =>
     let bad := JanetModel.Unmarsh.Bytes.cfg.sites.bad
     ((), if bad.isEmpty then "ok" else "bad " ++ " ".intercalate bad)
+  | ["vmguards"] =>
+    let bad := JanetModel.Bytecode.GuardObligations.badRows
+    ((), if bad.isEmpty then "ok" else "bad " ++ " ".intercalate (bad.map (·.replace " " "")))
   | ["um"] => ((), runUm [])
   | ["um", h] =>
     match bytesOfHex h with
